@@ -206,30 +206,31 @@ Section Model.
     Ok (removelast l, alloc1, o1, ev).
 
   (* ---- ptrheap_delete ---- *)
+  (* the body of "if (rc != H->nelems - 1) { ... }" *)
+  Definition delete_sift (setrc : bool) (l : list N) (n rc : nat) : res (list N * list note) :=
+    let* last := getp l (n - 1) in
+    let* l1 := putp l rc last in
+    let* n0 := (if setrc then let* y := getp l1 rc in Ok [(y, rc)] else Ok []) in
+    let* up := (if 0 <? rc then
+                  let* a := getp l1 rc in
+                  let* b := getp l1 (parent rc) in
+                  Ok (cmp a b <? 0)%Z
+                else Ok false) in
+    if up then
+      let* (l2, n1) := swap l1 rc (parent rc) setrc in
+      let* (l3, n2) := heapifyup (S (length l2)) l2 (parent rc) setrc in
+      Ok (l3, n0 ++ n1 ++ n2)
+    else
+      let* (l2, n1) := heapify (S (length l1)) l1 rc n setrc in
+      Ok (l2, n0 ++ n1).
+
   Definition ptrheap_delete (setrc : bool) (h : heap) (rc : nat) (o : oracle)
     : res (heap * list note * oracle * list aev) :=
     let l := elems h in
     let n := nelems h in
     if n =? 0 then Fault            (* nelems - 1 = SIZE_MAX: the array is read far outside *)
     else
-      let* (l1, ns) :=
-        if negb (rc =? n - 1) then
-          let* last := getp l (n - 1) in
-          let* l1 := putp l rc last in
-          let* n0 := (if setrc then let* y := getp l1 rc in Ok [(y, rc)] else Ok []) in
-          let* up := (if 0 <? rc then
-                        let* a := getp l1 rc in
-                        let* b := getp l1 (parent rc) in
-                        Ok (cmp a b <? 0)%Z
-                      else Ok false) in
-          if up then
-            let* (l2, n1) := swap l1 rc (parent rc) setrc in
-            let* (l3, n2) := heapifyup (S (length l2)) l2 (parent rc) setrc in
-            Ok (l3, n0 ++ n1 ++ n2)
-          else
-            let* (l2, n1) := heapify (S (length l1)) l1 rc n setrc in
-            Ok (l2, n0 ++ n1)
-        else Ok (l, []) in
+      let* (l1, ns) := (if negb (rc =? n - 1) then delete_sift setrc l n rc else Ok (l, [])) in
       let* (l2, alloc, o1, ev) := shrink1 l1 (h_alloc h) o in
       Ok (mkheap l2 (n - 1) alloc, ns, o1, ev).
 
